@@ -43,7 +43,7 @@ func Defs() []*schema.StoreDef {
 			{Name: "s", Kind: schema.KStr}, {Name: "ism", Kind: schema.KI32}, {Name: "ibig", Kind: schema.KI64}, {Name: "flt", Kind: schema.KF64},
 			{Name: "b", Kind: schema.KBool}, {Name: "t", Kind: schema.KTime}, {Name: "grp", Kind: schema.KStr, Prefix: []string{"ext"}},
 			{Name: "tags", Kind: schema.KList}, {Name: "nums", Kind: schema.KList}, {Name: "owner", Kind: schema.KStr, FK: Owners},
-			{Name: "friends", Kind: schema.KLinks, FK: Others}, {Name: "meta", Kind: schema.KMap},
+			{Name: "friends", Kind: schema.KLinks, FK: Others}, {Name: "meta", Kind: schema.KMap, Key: "mt"},
 			{Name: "uk", Kind: schema.KStr}, // a key of its own per thing, or null: carries a nullable unique index
 		},
 		Unique: []schema.UniqueDef{{Field: "uk", Nullable: true}},
@@ -134,7 +134,8 @@ func GenWorld(r *core.Rand, maxThings int, small bool) *World {
 	w := &World{Rows: map[string]map[string]*Row{Things: {}, Owners: {}, Others: {}}}
 	sp, ip, fp := StrPool, IntPool, FloatPool
 	if small { // shrunk pools force ties and null sort keys (C02)
-		sp, ip, fp = StrPool[:5], IntPool[:4], FloatPool[:4]
+		// the empty string is a value, not a null: both occur among the sort keys
+		sp, ip, fp = []string{"a", "", "A", "ab", "b"}, IntPool[:4], FloatPool[:4]
 	}
 	for _, id := range core.Subset(r, OwnerIds, 0.6) {
 		w.Rows[Owners][id] = &Row{Id: id, V: map[string]any{"name": pickNullable(r, sp, 0.25), "age": pickNullable(r, ip, 0.25), "active": pickNullable(r, []bool{true, false}, 0.25),
@@ -232,6 +233,14 @@ func LoadCtx(ctx boltz.MutateContext, sc *schema.Schema, w *World, r *core.Rand)
 						}
 					}
 					e.V[f.Name] = schema.CloneVal(v)
+					if m, ok := e.V[f.Name].(map[string]any); ok && f.Kind == schema.KMap {
+						// integers in a map arrive as int32 as often as int64 (a Go int32 in the caller's map)
+						for k, mv := range m {
+							if i, ok := mv.(int64); ok && i >= -2147483648 && i <= 2147483647 && r.Bool() {
+								m[k] = int32(i)
+							}
+						}
+					}
 				}
 				target := st
 				if kid := sc.St(Things + "/kid"); kid != nil && store == Things && HashKid(id) {
